@@ -255,7 +255,7 @@ def collect_S(pid, tier, seed):
 
 
 K_HARNESS = {"conv": ["C01", "C02"], "order": ["C05", "C02"], "names": ["C03", "C02"], "iter_history": ["C06", "C02"], "range_pair": ["C07", "C02"],
-             "std_size_hint": ["C06", "C07"]}
+             "std_size_hint": ["C06", "C07"], "std_contract": ["C06", "C07", "C08"]}
 
 
 def collect_K(pid, tier):
@@ -271,6 +271,8 @@ def collect_K(pid, tier):
         kind = parts[-1]
         if kind.startswith("size_hint_"):
             kind = "std_size_hint"
+        if kind.startswith("contract_"):
+            kind = "std_contract"
         if pid not in K_HARNESS.get(kind, []):
             continue
         modname = parts[0]
